@@ -16,7 +16,8 @@ META = {
     "obtained when that sample is analysed alone (assemble: decoded haplotype sequences + statistics, '.' may become a named allele); every pool column is compared "
     "with the column of one sample whose BAM is the physical union of the pooled reads; non-trivial = at least two samples / a pool of >= 2 samples",
     "bound": {"quick": "3 samples (ploidy 4/2/6), 3 loci; all 15 ordered non-empty subsets of the BAM arguments x {assemble, call, call-exact} x seeds {0,42}; "
-                       "two samples in one BAM file; all 27 assignments of 3 samples to non-empty subsets of 2 pools x 3 programs",
+                       "the same with a read-less sample (S1, S0, S2; S0 has no read at the SNV loci); every size of joint call set in {1..3,126..130,254..258,300} x edge allele "
+                       "numbers through assemble's allele-numbering helper; two samples in one BAM file; all 27 assignments of 3 samples to non-empty subsets of 2 pools x 3 programs",
               "thorough": "5 loci; pools with seeds {0,42}"},
     "assumptions": ["merged BAMs are built so that the row order of the pooled read matrix equals the order obtained by concatenating the pool members (all reads of a "
                     "locus start at the same coordinate and the stable sort keeps member order), making the comparison exact",
@@ -45,16 +46,19 @@ def plan(tier, seed):
         for s in (0, 42):
             jobs.append(("subsets", prog, s, tier, 40000 if prog == "assemble" else 20000))
             jobs.append(("multibam", prog, s, tier, 6000))
+        # a sample without a single read at the SNV-bearing loci, listed before / between / after covered samples
+        jobs.append(("subsets", prog, 42, tier + "+uncovered", 20000))
         for ch in range(3):
             for s in ((0, 42) if tier == "thorough" else (42,)):
                 jobs.append(("pools", prog, s, ch, 3, tier, 30000 if prog == "assemble" else 15000))
+    jobs.append(("labels", 300, 1))
     jobs.sort(key=lambda j: -j[-1])
     return jobs
 
 
 def run_job(job):
     env.quiet()
-    return {"subsets": job_subsets, "multibam": job_multibam, "pools": job_pools}[job[0]](job)
+    return {"subsets": job_subsets, "multibam": job_multibam, "pools": job_pools, "labels": job_labels}[job[0]](job)
 
 
 def loci_names(tier):
@@ -137,7 +141,11 @@ def job_subsets(job):
     r = Result()
     payload = {"kind": "job", "job": job}
     d = env.scratch_dir("c10")
-    D = stddata.Data(d)
+    SAMPLES = ["S1", "S2", "S3"]
+    if tier.endswith("+uncovered"):
+        tier = tier.split("+")[0]
+        SAMPLES = ["S1", "S0", "S2"]
+    D = stddata.Data(d, samples=SAMPLES)
     bed = D.bed_subset(loci_names(tier), "sub.bed")
     hv = None
     if prog != "assemble":
@@ -166,7 +174,37 @@ def job_subsets(job):
                             diff = [(f, a, b) for f, a, b in zip(fmt_a, va, vt) if a != b]
                             r.violation("independent|%s|seed=%d" % (prog, seed), "locus %s sample %s: alone vs with %r differs in %r (%s)" % (lid, s, list(sub), diff[:4], tag), payload)
             r.outcome((prog, seed, sub, tuple(tuple(c[2]) for c in column(recs, samples, sub[0]))))
-    r.sample({"program": prog, "seed": seed, "ordered_subsets": 12, "loci": loci_names(tier)})
+    r.sample({"program": prog, "seed": seed, "samples": SAMPLES, "ordered_subsets": 12, "loci": loci_names(tier)})
+    return r
+
+
+def job_labels(job):
+    """assemble numbers a sample's haplotypes through the label map of the joint call set: for every size of that call
+    set up to the bound and every pair of allele numbers in it, the helper must return exactly those numbers."""
+    from mchap.application.assemble import _genotype_as_alleles
+
+    _, nmax, _ = job
+    r = Result()
+    payload = {"kind": "job", "job": job}
+    haps = np.array([[(i >> b) & 1 for b in range(9)] for i in range(nmax + 1)], dtype=np.int8)
+    unknown = np.full(9, 1, np.int8)
+    unknown[0] = 2
+    for n in sorted(set([1, 2, 3, 126, 127, 128, 129, 130, 254, 255, 256, 257, 258, nmax])):
+        labels = {haps[i].tobytes(): i for i in range(n)}
+        edge = sorted(set(i for i in (0, 1, 2, 125, 126, 127, 128, 129, 130, 253, 254, 255, 256, 257, 258, n - 2, n - 1) if 0 <= i < n))
+        for i in edge:
+            for j in edge + [-1]:
+                for k in (i, -1):
+                    g = np.array([haps[x] if x >= 0 else unknown for x in (j, i, k)])
+                    got = [int(x) for x in _genotype_as_alleles(g, labels)]
+                    want = sorted(x for x in (j, i, k) if x >= 0) + [-1] * sum(1 for x in (j, i, k) if x < 0)
+                    r.evaluations += 1
+                    if n > 1:
+                        r.nontrivial += 1
+                    if got != want:
+                        r.violation("allele-numbers", "call set of %d haplotypes: genotype of alleles %r is numbered %r" % (n, want, got), payload)
+    r.outcome(("labels", nmax))
+    r.sample({"label_map_sizes": "1..%d (edges)" % nmax})
     return r
 
 
